@@ -1,63 +1,63 @@
-(* Props/C14Known.v — refutations: for each flag claimed `true` in Actual/CollectActual.v a concrete
-   project on which the faithful model differs from the specification while the model with that single
-   flag switched off agrees with it (closed by vm_compute).  The same projects are in corpus/C14 and
-   are replayed on the implementation on every run. *)
+(* Props/C14Known.v — regressions.  Every flag of the model describes a defect that has been repaired in /repo
+   (b20520c, 27377de, 9c8f928, bbae54e); none is claimed in Actual/CollectActual.v any more.  For each former
+   witness: the claimed vector (which runs the functions generated from the current source) now meets the
+   specification on it, and the model with that one flag switched on still reproduces the old defect (so the
+   flag keeps its meaning).  The same projects are in corpus/C14 and must pass on the implementation. *)
 From TL Require Import Lib.Base Model.CollectStr Model.Glob Gen.CollectGen Model.Collect Model.CollectSpec Model.CollectRun Actual.CollectActual.
 
 Definition no_sources : tsources := Build_tsources None (Some []) None.
 Definition root_abs : list string := ["/"; "w"; "proj"].
-Definition outs (l : list (list string)) : list string := map pjoin l.
 
-(* a project that lives under a directory called build: nothing is linted *)
+(* a project that lives under a directory called build *)
 Definition w_above : tree := Dir "" [File "a.py"].
-Theorem C14_excl_above_root_refuted :
-  run_dir collect_actual true ["/"; "w"; "build"; "proj"] [] w_above (render_sources no_sources) <> spec_dir true [] w_above no_sources
-  /\ run_dir (with_flag 0 collect_actual) true ["/"; "w"; "build"; "proj"] [] w_above (render_sources no_sources) = spec_dir true [] w_above no_sources.
-Proof. vm_compute. split; [discriminate|reflexivity]. Qed.
+Theorem C14_excl_above_root_regression :
+  run_dir collect_actual true ["/"; "w"; "build"; "proj"] [] w_above (render_sources no_sources) = spec_dir true [] w_above no_sources
+  /\ run_dir (with_flag 0 collect_actual) true ["/"; "w"; "build"; "proj"] [] w_above (render_sources no_sources) <> spec_dir true [] w_above no_sources.
+Proof. vm_compute. split; [reflexivity|discriminate]. Qed.
 
-(* a regular file called build (or dist, venv, x.egg-info ...) is skipped *)
+(* a regular file called build *)
 Definition w_fname : tree := Dir "" [File "build"; File "a.py"].
-Theorem C14_excl_filename_refuted :
-  run_dir collect_actual true root_abs [] w_fname (render_sources no_sources) <> spec_dir true [] w_fname no_sources
-  /\ run_dir (with_flag 1 collect_actual) true root_abs [] w_fname (render_sources no_sources) = spec_dir true [] w_fname no_sources
-  /\ run_files collect_actual root_abs (render_sources no_sources) [["build"]] <> spec_files no_sources [["build"]].
-Proof. vm_compute. repeat split; try discriminate; reflexivity. Qed.
+Theorem C14_excl_filename_regression :
+  run_dir collect_actual true root_abs [] w_fname (render_sources no_sources) = spec_dir true [] w_fname no_sources
+  /\ run_files collect_actual root_abs (render_sources no_sources) [["build"]] = spec_files no_sources [["build"]]
+  /\ run_dir (with_flag 1 collect_actual) true root_abs [] w_fname (render_sources no_sources) <> spec_dir true [] w_fname no_sources.
+Proof. vm_compute. repeat split; try reflexivity; discriminate. Qed.
 
-(* "legacy/" also ignores legacy2/e.py and legacy_x.py *)
+(* "legacy/" next to legacy2/e.py and legacy_x.py *)
 Definition w_prefix : tree := Dir "" [Dir "legacy" [File "d.py"]; Dir "legacy2" [File "e.py"]; File "legacy_x.py"; File "a.py"].
 Definition s_prefix : tsources := Build_tsources (Some [LPat 0 0 (PDir "legacy")]) (Some []) None.
-Theorem C14_dirpat_prefix_refuted :
-  run_dir collect_actual true root_abs [] w_prefix (render_sources s_prefix) <> spec_dir true [] w_prefix s_prefix
-  /\ run_dir (with_flag 2 collect_actual) true root_abs [] w_prefix (render_sources s_prefix) = spec_dir true [] w_prefix s_prefix.
-Proof. vm_compute. split; [discriminate|reflexivity]. Qed.
+Theorem C14_dirpat_prefix_regression :
+  run_dir collect_actual true root_abs [] w_prefix (render_sources s_prefix) = spec_dir true [] w_prefix s_prefix
+  /\ run_dir (with_flag 2 collect_actual) true root_abs [] w_prefix (render_sources s_prefix) <> spec_dir true [] w_prefix s_prefix.
+Proof. vm_compute. split; [reflexivity|discriminate]. Qed.
 
-(* "vendor/" ignores a regular file called vendor *)
+(* "vendor/" and a regular file called vendor *)
 Definition w_dfile : tree := Dir "" [Dir "src" [File "vendor"; File "a.py"]].
 Definition s_dfile : tsources := Build_tsources None (Some [PDir "vendor"]) None.
-Theorem C14_dirpat_filename_refuted :
-  run_dir collect_actual true root_abs [] w_dfile (render_sources s_dfile) <> spec_dir true [] w_dfile s_dfile
-  /\ run_dir (with_flag 3 collect_actual) true root_abs [] w_dfile (render_sources s_dfile) = spec_dir true [] w_dfile s_dfile.
-Proof. vm_compute. split; [discriminate|reflexivity]. Qed.
+Theorem C14_dirpat_filename_regression :
+  run_dir collect_actual true root_abs [] w_dfile (render_sources s_dfile) = spec_dir true [] w_dfile s_dfile
+  /\ run_dir (with_flag 3 collect_actual) true root_abs [] w_dfile (render_sources s_dfile) <> spec_dir true [] w_dfile s_dfile.
+Proof. vm_compute. split; [reflexivity|discriminate]. Qed.
 
-(* "**/*_constants.py" does not cover a file at the top level; "**/gen/" does not cover a top-level gen/ *)
+(* "**/*_constants.py" and "**/gen/" at the top level *)
 Definition w_dstar : tree := Dir "" [File "my_constants.py"; Dir "src" [File "t_constants.py"]; Dir "gen" [File "g.py"]; File "a.py"].
 Definition s_dstar : tsources := Build_tsources (Some [LPat 0 0 (PAnySuffix "_constants.py"); LPat 0 0 (PAnyDir "gen")]) (Some []) None.
-Theorem C14_doublestar_refuted :
-  run_dir collect_actual true root_abs [] w_dstar (render_sources s_dstar) <> spec_dir true [] w_dstar s_dstar
-  /\ run_dir (with_flag 4 collect_actual) true root_abs [] w_dstar (render_sources s_dstar) = spec_dir true [] w_dstar s_dstar.
-Proof. vm_compute. split; [discriminate|reflexivity]. Qed.
+Theorem C14_doublestar_regression :
+  run_dir collect_actual true root_abs [] w_dstar (render_sources s_dstar) = spec_dir true [] w_dstar s_dstar
+  /\ run_dir (with_flag 4 collect_actual) true root_abs [] w_dstar (render_sources s_dstar) <> spec_dir true [] w_dstar s_dstar.
+Proof. vm_compute. split; [reflexivity|discriminate]. Qed.
 
-(* with a .thailintignore present the config's ignore list is dropped *)
+(* a .thailintignore next to a config ignore list *)
 Definition w_both : tree := Dir "" [File "a.py"; File "b.txt"; File "c.md"].
 Definition s_both : tsources := Build_tsources (Some [LPat 0 0 (PSuffix ".txt")]) (Some [PSuffix ".py"]) None.
-Theorem C14_ti_shadows_config_refuted :
-  run_dir collect_actual true root_abs [] w_both (render_sources s_both) <> spec_dir true [] w_both s_both
-  /\ run_dir (with_flag 5 collect_actual) true root_abs [] w_both (render_sources s_both) = spec_dir true [] w_both s_both.
-Proof. vm_compute. split; [discriminate|reflexivity]. Qed.
+Theorem C14_ti_shadows_config_regression :
+  run_dir collect_actual true root_abs [] w_both (render_sources s_both) = spec_dir true [] w_both s_both
+  /\ run_dir (with_flag 5 collect_actual) true root_abs [] w_both (render_sources s_both) <> spec_dir true [] w_both s_both.
+Proof. vm_compute. split; [reflexivity|discriminate]. Qed.
 
-(* the ignore list of .thailint.json is never read *)
+(* the ignore list of .thailint.json *)
 Definition s_json : tsources := Build_tsources None None (Some [PSuffix ".py"]).
-Theorem C14_json_ignore_unused_refuted :
-  run_dir collect_actual true root_abs [] w_both (render_sources s_json) <> spec_dir true [] w_both s_json
-  /\ run_dir (with_flag 6 collect_actual) true root_abs [] w_both (render_sources s_json) = spec_dir true [] w_both s_json.
-Proof. vm_compute. split; [discriminate|reflexivity]. Qed.
+Theorem C14_json_ignore_unused_regression :
+  run_dir collect_actual true root_abs [] w_both (render_sources s_json) = spec_dir true [] w_both s_json
+  /\ run_dir (with_flag 6 collect_actual) true root_abs [] w_both (render_sources s_json) <> spec_dir true [] w_both s_json.
+Proof. vm_compute. split; [reflexivity|discriminate]. Qed.
